@@ -14,7 +14,7 @@ CONSTANTS
   SetMaxSet = {1}
   AdvSet = {}
   Budget = 2
-  Ops = {"insert", "wait", "clear", "close"}
+  Ops = {"insert", "wait", "clear", "close", "drop"}
   TickOn = FALSE
   MaxNow = 0
 PROPERTIES EveryCallReturnsStrict
